@@ -329,6 +329,8 @@ class Parser:
         self.lexer = Lexer(included_text, path=include_path.value)
         ops = self.parse()
         self.lexer = old_lexer
+        # A built-in library is not a file: its name must not linger as a visited path.
+        self.visited.discard(get_canonical_path(include_path.value))
         return ops
 
     def expect(self, types: "Union[str, Set[str]]", msg="unexpected token") -> bool:
